@@ -167,3 +167,20 @@ macro_rules! cell {
         assert!(got.map(|p| p.as_ptr() as usize) == Some($inner), "C09.result_unchanged");
     }};
 }
+
+// Dispatch::event: the collector's event_enabled is asked exactly once, and event is delivered exactly once iff it said yes
+#[kani::proof]
+#[kani::unwind(18)]
+#[kani::stub(core::fmt::Formatter::pad, pad_stub)]
+fn c09_core_dispatch_event() {
+    let r = Rec::any();
+    let w = Dispatch::__verif_unregistered(r);
+    let vs = META0.fields().value_set(&[]);
+    let e = Event::new(&META0, &vs);
+    w.event(&e);
+    assert!(CALLS[M_EVENT_ENABLED].load(AO::SeqCst) == 1, "C09.dispatch.event.asks_event_enabled_once");
+    assert!(CALLS[M_EVENT].load(AO::SeqCst) == r.ev_enabled as usize, "C09.dispatch.event.delivered_once_iff_event_enabled");
+    let mut i = 0; while i < NM { if i != M_EVENT && i != M_EVENT_ENABLED { assert!(CALLS[i].load(AO::SeqCst) == 0, "C09.dispatch.event.nothing_else_called"); } i += 1; }
+    assert!(r.ev_enabled == false || ARG_A.load(AO::SeqCst) == addr(&e), "C09.dispatch.event.same_argument");
+    core::mem::forget(w);
+}
